@@ -209,6 +209,32 @@ pub fn run(out: &mut Out, seed: u64, thorough: bool) {
             }
         }
     }
+    // two-packet trains whose first fragment is as full as it can be: the buffer misses the complete packet
+    // by k bytes, so the end packet carries 3 + k PDU bytes - fewer than a label is long for small k
+    // (with a re-use first fragment the announced total length counts no label bytes)
+    for (li, label) in [LA6, LA3, LB6, Label::Broadcast].iter().enumerate() {
+        for k in 1..=8usize {
+            for subst in [true, false] {
+                if subst && *label == Label::Broadcast {
+                    continue;
+                }
+                let plen = 30 + k + li;
+                let wll = if subst { 0 } else { label.len() };
+                let cfg = ChainCfg {
+                    plen,
+                    label: *label,
+                    subst_first: subst,
+                    ptype: 0x0800,
+                    fragid: (90 + k) as u8,
+                    sched: vec![4 + wll + plen - k, 4097],
+                    slots: 2,
+                    extra_storage: k % 2,
+                    reset_after: None,
+                };
+                run_chain(out, &mut rng, &cfg, "full_first");
+            }
+        }
+    }
     // long PDUs up to the 16-bit total length, a few with tiny buffers (many packets)
     for (i, plen) in big.iter().enumerate() {
         let label = labels[i % 3];
